@@ -277,7 +277,7 @@ func (Hooks) Yield(site string) bool {
 	if g == nil {
 		return false
 	}
-	s.park(g, pending{phase: phPre, kind: KYield, site: site})
+	s.park(g, pending{phase: phPre, kind: KYield, site: site, label: "gosched"})
 	return true
 }
 
